@@ -144,3 +144,22 @@ def finding_key(obs, clause):
 def nontrivial(o):
     r = o["out"].get("r1", {})
     return bool(r.get("cells")) and any(v != o["in"]["fill"] for row in r["cells"] for v in row)
+
+
+MANIFEST = {
+    "text": ("Raster.tla states rasterize on integer ticks: the bin lookup is transcribed from get_coord_index(raise_error=False) "
+             "(and the 'bin containing v' reading where they differ), every vertex is mapped to bin indices, and the cells of a "
+             "geometry are those whose centre lies inside the mapped shape (exact even-odd test; a centre on an edge is undecided); "
+             "for boxes and time intervals TLC checks that this IS [bin(start), bin(end)) x [bin(low), bin(high)) and that it is "
+             "monotone in the box. Acceptance: dims/coordinates of the template, independence of its contents and dimension order, "
+             "exact cells for boxes, centre rule, painter's order, fill elsewhere, all_touched superset, value-list length. "
+             "MC_Raster.tla is rasterize as a machine (length check, one burn per geometry, transposition and relabelling) and TLC "
+             "proves Impl => Req on every enumerated call; with rows/columns taken from array.shape TLC finds the time-first "
+             "non-square counterexample (spec/history/MC_Raster_prefix.*). Every enumerated call (16 sizes x 2 orders x 3 "
+             "spacings x boxes/intervals/stamps/catalogue shapes/pairs/length mismatches) and random larger templates are run on "
+             "the real code three times (contents A, contents B, all_touched) and judged by TLC."),
+    "note": ("trusted: TLC, the binder checks/c20.py (encoder), exact arithmetic on dyadic units; for lines and points only "
+             "'cells away from the mapped shape stay unmarked' is demanded; open finding: all_touched=True can drop cells of line "
+             "geometries (key AllTouchedSuperset/line-or-point-geometry)"),
+    "design_ref": "DESIGN.md section 4 C20",
+}
